@@ -35,6 +35,11 @@ pub struct Flat { pub a: u8, #[serde(flatten)] pub rest: BTreeMap<String, i32> }
 pub struct NewT(pub i32);
 #[derive(Serialize, Deserialize, PartialEq, Debug, Clone)]
 pub struct Bytes(#[serde(with = "serde_bytes")] pub Vec<u8>);
+/// raw numbers (kept as their literal text) as fields and elements
+#[derive(Serialize, Deserialize, PartialEq, Debug, Clone)]
+pub struct SRaw { pub n: sonic_rs::RawNumber, pub v: Vec<sonic_rs::RawNumber>, pub o: Option<sonic_rs::RawNumber> }
+impl Arb for sonic_rs::RawNumber { fn arb(rng: &mut Rng) -> Self { loop { let i = rng.next(); let (lit, _) = crate::nm::gen_literal(rng, i); if lit.len() < 60 { if let Ok(r) = sonic_rs::from_slice::<sonic_rs::RawNumber>(&lit) { return r; } } } } }
+impl Arb for SRaw { fn arb(rng: &mut Rng) -> Self { SRaw { n: Arb::arb(rng), v: Arb::arb(rng), o: Arb::arb(rng) } } }
 /// an enum with a tuple variant of zero fields (written {"Z":[]})
 #[derive(Serialize, Deserialize, PartialEq, Debug, Clone)]
 pub enum EnumZ { Z(), W(u8), S {}, N(Option<u8>), U(()), T(Option<u8>, ()) }
@@ -59,6 +64,7 @@ fn has_dup_keys(v: &sonic_rs::Value) -> bool {
     if let Some(o) = v.as_object() { let mut seen = std::collections::HashSet::new(); for (k, x) in o.iter() { if !seen.insert(k.to_string()) || has_dup_keys(x) { return true; } } false }
     else if let Some(a) = v.as_array() { a.iter().any(has_dup_keys) } else { false }
 }
+impl Arb for sonic_rs::Number { fn arb(rng: &mut Rng) -> Self { loop { let i = rng.next(); let (lit, _) = crate::nm::gen_literal(rng, i); if let Ok(n) = sonic_rs::from_slice::<sonic_rs::Number>(&lit) { return n; } } } }
 impl Arb for SWithValue { fn arb(rng: &mut Rng) -> Self {
     use sonic_rs::JsonValueTrait;
     let arr = loop { let v = sonic_rs::Value::arb(rng); if v.is_array() { break v.into_array().unwrap(); } if rng.chance(1, 3) { break sonic_rs::Array::new(); } };
@@ -228,6 +234,9 @@ pub fn registry() -> Vec<TyEntry> {
         TyEntry { name: "dom_value", de: de_none, conv: Some(conv::<sonic_rs::Value>), gen: None },
         TyEntry { name: "dom_struct_with_value", de: de_none, conv: Some(conv::<SWithValue>), gen: None },
         TyEntry { name: "dom_vec_value", de: de_none, conv: Some(conv::<Vec<sonic_rs::Value>>), gen: None },
+        TyEntry { name: "dom_rawnumber", de: de_none, conv: Some(conv::<sonic_rs::RawNumber>), gen: None },
+        TyEntry { name: "dom_struct_raw", de: de_none, conv: Some(conv::<SRaw>), gen: None },
+        TyEntry { name: "dom_number", de: de_none, conv: Some(conv::<Vec<sonic_rs::Number>>), gen: None },
         tyg!("ignored", Ign, gen_any), tyg!("vec_ignored", Vec<Ign>, gen_any), tyg!("map_string_ignored", BTreeMap<String, Ign>, gen_any),
         tyg!("vec_bytebuf", Vec<serde_bytes::ByteBuf>, gen_vec_bytes), tyg!("struct_bytes", SBytes, gen_sbytes),
         tyg!("tup_bytes", (serde_bytes::ByteBuf, String, serde_bytes::ByteBuf), gen_tup_bytes), tyg!("map_string_bytebuf", BTreeMap<String, serde_bytes::ByteBuf>, gen_map_bytes),
